@@ -117,9 +117,24 @@ def run_tlc(module, cfg, *, workers=16, env=None, timeout=1800, coverage=False, 
             res.violated = "temporal"
         if "Deadlock reached" in out and not res.violated:
             res.violated = "deadlock"
+        acc = None
         for line in out.splitlines():
             s = line.strip()
-            if s.startswith("<<") or (s.startswith('"') and s.endswith('"')):
+            if acc is not None:
+                # TLC's pretty printer wraps long values: glue the block back together
+                acc += " " + s
+                if s.endswith(">>") and acc.count("<<") == acc.count(">>"):
+                    res.prints.append(acc)
+                    acc = None
+                elif len(acc) > 200000:
+                    acc = None
+                continue
+            if s.startswith("<<"):
+                if s.endswith(">>") and s.count("<<") == s.count(">>"):
+                    res.prints.append(s)
+                else:
+                    acc = s
+            elif s.startswith('"') and s.endswith('"'):
                 res.prints.append(s)
         for m in _RE_COV.finditer(out):
             name = m.group(1)
